@@ -986,6 +986,10 @@ func (tx *Transaction) WriteRequestBody(b []byte) (*types.Interruption, int, err
 
 		if tx.requestBodyLimitAction() == types.BodyLimitActionProcessPartial {
 			writingBytes = tx.RequestBodyLimit - tx.requestBodyBuffer.length
+			if writingBytes < 0 {
+				// ctl:requestBodyLimit lowered the limit below what is already buffered
+				writingBytes = 0
+			}
 			runProcessRequestBody = true
 		}
 	}
@@ -1260,6 +1264,10 @@ func (tx *Transaction) WriteResponseBody(b []byte) (*types.Interruption, int, er
 
 		if tx.responseBodyLimitAction() == types.BodyLimitActionProcessPartial {
 			writingBytes = tx.ResponseBodyLimit - tx.responseBodyBuffer.length
+			if writingBytes < 0 {
+				// ctl:responseBodyLimit lowered the limit below what is already buffered
+				writingBytes = 0
+			}
 			runProcessResponseBody = true
 		}
 	}
@@ -1311,6 +1319,10 @@ func (tx *Transaction) ReadResponseBodyFrom(r io.Reader) (*types.Interruption, i
 
 			if tx.responseBodyLimitAction() == types.BodyLimitActionProcessPartial {
 				writingBytes = tx.ResponseBodyLimit - tx.responseBodyBuffer.length
+				if writingBytes < 0 {
+					// ctl:responseBodyLimit lowered the limit below what is already buffered
+					writingBytes = 0
+				}
 				runProcessResponseBody = true
 			}
 		}
